@@ -7,6 +7,7 @@ SPEC = {
     'prop_files': ['theories/Properties/W_simple.v'],
     'coq_targets': ['theories/Properties/W_simple.vo', 'theories/Wire/SimpleCorr.vo'],
     'closure_dirs': ['theories/Wire/Simple.v', 'theories/Wire/SimpleProofs.v', 'theories/Wire/SimpleCorr.v',
+                     'theories/Wire/SimpleTotal.v', 'theories/Wire/SimpleDepth.v', 'theories/Wire/SimpleSkip.v',
                      'theories/Wire/Item.v', 'theories/Base/Outcome.v', 'theories/Base/Word.v', 'theories/Base/FBits.v',
                      'theories/Gen/Consts.v', 'theories/Gen/Leaf.v'],
     'harness': 'wiresimple',
